@@ -13,7 +13,10 @@
 (* defs to defs; self references included).  `pos` is the textual order.   *)
 (* The elaboration of blocks.rs (dependency-ordered telescope; recursive   *)
 (* components only among type definitions) gives:                          *)
-(*   accepted  iff  no val lies on a cycle,                                *)
+(*   accepted  iff  no val and no transparent alias lies on a cycle,       *)
+(*   argument order = parameters by dependency LEVEL (length of the        *)
+(*   longest reference chain below them), then by their relative textual   *)
+(*   order - the level-by-level order of BindingContext (ZyGraph),         *)
 (*   result    =    a fixed arithmetic function of G and the arguments,    *)
 (* independent of pos.  Every (kinds, G, pos) is printed for replay.       *)
 (***************************************************************************)
@@ -21,7 +24,7 @@ EXTENDS Integers, Sequences, FiniteSets, TLC, Json
 CONSTANT N
 
 Nodes == 1..N
-Kinds == {"param", "val", "def"}
+Kinds == {"param", "val", "def", "ty"}
 Perms == {p \in [1..N -> Nodes] : \A i, j \in 1..N : i # j => p[i] # p[j]}
 
 VARIABLES kinds, G, pos
@@ -29,12 +32,15 @@ vars == <<kinds, G, pos>>
 
 Allowed(k) == {e \in Nodes \X Nodes :
                  \/ k[e[1]] = "val"
-                 \/ k[e[1]] = "def" /\ k[e[2]] = "def"}
+                 \/ k[e[1]] = "def" /\ k[e[2]] = "def"
+                 \/ k[e[1]] \in {"param", "ty"} /\ k[e[2]] = "ty"}
+(* an alias equals one type and a parameter has one annotation: at most one reference each *)
+SingleRef(k, g) == \A x \in Nodes : k[x] \in {"param", "ty"} => Cardinality({e \in g : e[1] = x}) <= 1
 (* parameters keep their relative order in the text: that order is the argument order *)
 ParamsOrdered(k, p) == \A a, b \in 1..N : (a < b /\ k[p[a]] = "param" /\ k[p[b]] = "param") => p[a] < p[b]
 
 Init == /\ kinds \in [Nodes -> Kinds]
-        /\ G \in SUBSET Allowed(kinds)
+        /\ G \in {g \in SUBSET Allowed(kinds) : SingleRef(kinds, g)}
         /\ pos \in {p \in Perms : ParamsOrdered(kinds, p)}
 Next == UNCHANGED vars
 Spec == Init /\ [][Next]_vars
@@ -45,7 +51,20 @@ ReachN(S, n) == IF n = 0 THEN S ELSE ReachN(S \cup UNION {Succ(x) : x \in S}, n 
 ReachPlus(x) == ReachN(Succ(x), N)                 \* nodes reachable by >= 1 edge
 OnCycle(x) == x \in ReachPlus(x)
 
-Accepted == \A x \in Nodes : kinds[x] = "val" => ~OnCycle(x)
+Accepted == \A x \in Nodes : kinds[x] \in {"val", "ty"} => ~OnCycle(x)
+
+(* dependency level: longest reference chain below a node (only evaluated on acyclic parts) *)
+RECURSIVE Level(_, _)
+Level(x, fuel) == IF fuel = 0 \/ Succ(x) \ {x} = {} THEN 0
+                  ELSE 1 + (CHOOSE m \in {Level(y, fuel - 1) : y \in Succ(x) \ {x}} :
+                              \A n \in {Level(y, fuel - 1) : y \in Succ(x) \ {x}} : m >= n)
+Params == {x \in Nodes : kinds[x] = "param"}
+RECURSIVE SortParams(_)
+SortParams(S) == IF S = {} THEN << >>
+                 ELSE LET x == CHOOSE x \in S : \A y \in S : <<Level(x, N), x>> = <<Level(y, N), y>> \/ Level(x, N) < Level(y, N)
+                                                              \/ (Level(x, N) = Level(y, N) /\ x < y)
+                      IN <<x>> \o SortParams(S \ {x})
+ArgOrder == SortParams(Params)
 
 Arg(i) == 3 * i
 RECURSIVE ValOf(_, _)
@@ -69,5 +88,6 @@ Code == Total(Nodes) % 256
 (* the statement itself: the prediction does not mention pos *)
 EdgeSeq == LET RECURSIVE F(_) F(S) == IF S = {} THEN << >> ELSE LET e == CHOOSE e \in S : TRUE IN <<e>> \o F(S \ {e}) IN F(G)
 Report == PrintT(<<"REPLAY", ToJson([n |-> N, kinds |-> kinds, edges |-> EdgeSeq, pos |-> pos,
-                     accepted |-> Accepted, code |-> IF Accepted THEN Code ELSE -1])>>)
+                     accepted |-> Accepted, code |-> IF Accepted THEN Code ELSE -1,
+                     args |-> IF Accepted THEN ArgOrder ELSE << >>])>>)
 =============================================================================
